@@ -89,9 +89,12 @@ def check(run):
             q = cal.get("qn")
             if not q or cal.get("inrepo"):
                 continue
-            if q.startswith("std::") or q.startswith("boost::") or q.startswith("__gnu_cxx::") or cal.get("cls"):
+            is_c = bool(cal.get("externc") or cal.get("builtin"))
+            if cal.get("cls"):
                 continue
-            if c.get("k") == "OpCall" and not cal.get("externc"):
+            if not is_c and (q.startswith("std::") or q.startswith("boost::") or q.startswith("__gnu_cxx::")):
+                continue      # C++ library templates/functions: trusted base; C functions re-exported in std:: are classified below
+            if c.get("k") == "OpCall" and not is_c:
                 continue
             ext.setdefault(q, []).append((f, c.get("l", 0)))
     for q, sites in sorted(ext.items()):
